@@ -124,6 +124,28 @@ def compare(g, m: Model) -> str | None:
                     return f"unknown coalition {s}: {name} bound was set to {want} but the getters return {got}"
                 if len(set(got)) != 1:
                     return f"unknown coalition {s}: {name}-bound getters disagree with each other: {got}"
+    # the selection arguments are typed Iterable[Coalition]: one-shot iterables (generators, map objects) must behave like lists
+    for sel in ([s for s in range(N) if s % 2], list(range(N - 1, 0, -1)), [N - 1, 1]):
+        sel = [s for s in sel if s < N]
+        if not sel:
+            continue
+        cs = [all_c[s] for s in sel]
+        for name in ("get_lower_bounds", "get_upper_bounds", "are_values_known", "get_intervals", "get_known_values"):
+            a = np.asarray(getattr(g, name)(list(cs)))
+            b = np.asarray(getattr(g, name)(c for c in cs))
+            if a.shape != b.shape or not np.array_equal(a, b, equal_nan=(a.dtype.kind == "f")):
+                return f"{name}(generator over {sel}) = {b.tolist()} differs from {name}(list) = {a.tolist()}"
+        want_known = all(m.t[s][0] for s in sel)
+        for label, arg in (("generator", (c for c in cs)), ("map object", map(lambda c: c, cs))):
+            try:
+                got = np.asarray(g.get_values(arg)).tolist()
+                if not want_known:
+                    return f"get_values({label} over {sel}) returned {got} although coalitions {[s for s in sel if not m.t[s][0]]} are unknown"
+                if got != [m.t[s][1] for s in sel]:
+                    return f"get_values({label} over {sel}) = {got}, model {[m.t[s][1] for s in sel]}"
+            except ValueError:
+                if want_known:
+                    return f"get_values({label} over {sel}) raised although all of them are known"
     if not all(known):
         try:
             g.get_values()
